@@ -625,3 +625,70 @@ func rLim4(l *limCtx) {
 		}
 	}
 }
+
+// ---------------------------------------------------------------------------
+// R-LIM5: ensureStorage succeeds only with the reserve in place.
+// The interpreter pushes up to K*TrackCount slots between two calls of
+// ensureStorage without looking at the stack pointer.  growTrack may grow the
+// stack by less than it was asked for (the limit clamps the new length, down
+// to a single slot), so "growTrack succeeded" does not imply "the reserve is
+// there": the condition has to be tested again after the growth, otherwise
+// the next pushes run off the front of the slice.
+// ---------------------------------------------------------------------------
+
+func RLim5(c *core.Ctx) {
+	c.Rule("R-LIM5", "in ensureStorage, after the call of growTrack the free space is compared with the reserve again (a read of Runtrackpos that follows the call feeds a branch) before nil is returned: a growth clamped by the limit may leave less than the reserve", 1)
+	p := c.P
+	fn := p.SSAFunc(p.LookupFunc("", "Runner.ensureStorage"))
+	grow := p.SSAFunc(p.LookupFunc("", "Runner.growTrack"))
+	tp := p.LookupField("", "Runner", "Runtrackpos")
+	if fn == nil || grow == nil || tp == nil {
+		c.Anchor("Runner.ensureStorage / growTrack / Runtrackpos")
+		return
+	}
+	c.Visit(core.SSAName(fn))
+	n := 0
+	for _, b := range fn.Blocks {
+		for i, ins := range b.Instrs {
+			call, ok := ins.(*ssa.Call)
+			if !ok || call.Call.StaticCallee() != grow {
+				continue
+			}
+			n++
+			rechecked := false
+			check := func(ins2 ssa.Instruction) {
+				ld, ok := ins2.(*ssa.UnOp)
+				if !ok || ld.Op != token.MUL || core.FieldVarOfAddr(ld.X) != tp {
+					return
+				}
+				for _, r := range core.Referrers(ld) {
+					if bin, ok := r.(*ssa.BinOp); ok {
+						switch bin.Op {
+						case token.LSS, token.LEQ, token.GTR, token.GEQ:
+							for _, r2 := range core.Referrers(bin) {
+								if _, ok := r2.(*ssa.If); ok {
+									rechecked = true
+								}
+							}
+						}
+					}
+				}
+			}
+			for _, later := range b.Instrs[i+1:] {
+				check(later)
+			}
+			for _, b2 := range fn.Blocks {
+				if b2 != b && b.Dominates(b2) {
+					for _, i2 := range b2.Instrs {
+						check(i2)
+					}
+				}
+			}
+			c.Check(rechecked, fmt.Sprintf("ensureStorage / the reserve is re-tested after growTrack #%d", n), call.Pos(),
+				"growTrack returns true as soon as the stack grew at all; with the limit just above the current size it grows by a few slots only, ensureStorage returns nil, and the interpreter then pushes up to the full reserve: index out of range [-1] in trackPush")
+		}
+	}
+	if n == 0 {
+		c.Anchor("the growTrack call in ensureStorage")
+	}
+}
